@@ -79,6 +79,12 @@ def check_roundtrip(case):
     nl = case['nl']
     after_refusal = refused_parse_before(case, core)
     c = build.build(nl, case['route'])
+    fixed_first = False
+    if nl['inputs'] and (len(nl['gates']) + 2 * len(nl['outputs'])) % 4 == 0:
+        # a circuit with a past: some of its inputs were fixed to constants before it is written out
+        ins = list(c.inputs)
+        c.replace_inputs(ins[:1], ins[2:3])
+        fixed_first = True
     text = c.format_circuit()
     if case['via_file']:
         # either a fresh directory, or ONE file name per process that every such case overwrites (a user saving
@@ -116,6 +122,8 @@ def check_roundtrip(case):
         cls.add('long_text_via_file' if case['via_file'] else 'long_text')
     if after_refusal:
         cls.add('after_refused_parse')
+    if fixed_first:
+        cls.add('inputs_fixed_before')
     nt = any(k.startswith('kw_') for k in cls) or case['route']['kind'] == 'rename'
     return {'nt': nt and gen.nontrivial_basic(nl), 'cls': cls, 'sample': {'text': text}}
 
@@ -262,7 +270,7 @@ SPEC = {
              Sub('layout', layout_cases, check_layout, {'quick': 2500, 'thorough': 200000})],
     'required_classes': {'roundtrip': ['kw_input_on_gate', 'kw_output_on_gate', 'kw_input_on_input', 'kw_on_output',
                                        'route:rename', 'via_file', 'via_file_same_path', 'nary>=3', 'constant',
-                                       'long_text', 'long_text_via_file', 'after_refused_parse'],
+                                       'long_text', 'long_text_via_file', 'after_refused_parse', 'inputs_fixed_before'],
                          'layout': ['use_before_definition', 'alias_buff', 'alias_vdd', 'comment', 'kw_input_on_gate',
                                     'entry:string', 'entry:file', 'entry:parser_lines', 'entry:parser_stripped']},
 }
